@@ -418,6 +418,16 @@ theorem step_emptySq (i : Nat) : StepSim (.emptySq i) := by
   | none => simp only [hi] at h ⊢; leaf h hR
   | some d => simp only [hi] at h ⊢; leaf h hR
 
+theorem step_boolSq (i : Nat) : StepSim (.boolSq i) := by
+  intro s t hs hR hq
+  refine ⟨?_, by none_case⟩
+  intro s' r h
+  simp only [Model.stepSimple] at h
+  simp only [Spec.stepSimple, hR.S]
+  cases hi : aget s.S i with
+  | none => simp only [hi] at h ⊢; leaf h hR
+  | some d => simp only [hi] at h ⊢; leaf h hR
+
 theorem step_newG (i : Nat) (fl : Option Flavour) : StepSim (.newG i fl) := by
   intro s t hs hR hq
   refine ⟨?_, by none_case⟩
